@@ -187,3 +187,94 @@ func VerifParserOpenAPI() {
 	v.Assert(symir.AllResolve(ast.Schemas{s1}), "C05: a reference of the IR parsed from an OpenAPI document does not resolve")
 	v.Assert(s1.Objects.Len() == len(names), "C05: the parser lost or invented a definition")
 }
+
+// ---------------------------------------------------------------- C08: constraints extracted from an OpenAPI schema
+
+// VerifC08OpenAPIConstraints: minimum/maximum/exclusiveMinimum/exclusiveMaximum/minLength/maxLength
+// of a property, all symbolic (present or absent, any combination of the two exclusive flags, any
+// bound), must reach the IR as exactly the constraints the document states:
+// minimum m -> (>= m), or (> m) with exclusiveMinimum; maximum M -> (<= M), or (< M) with
+// exclusiveMaximum; minLength n>0 -> (minLength n); maxLength n -> (maxLength n).
+func VerifC08OpenAPIConstraints() {
+	numeric := v.Bool("numeric")
+	s := &openapi3.Schema{}
+	type want struct {
+		op  ast.Op
+		arg int64
+	}
+	var wants []want
+	if numeric {
+		s.Type = opTypes(v.Str("numtype", "integer", "number"))
+		s.ExclusiveMin = v.Bool("exclusivemin")
+		s.ExclusiveMax = v.Bool("exclusivemax")
+		if v.Bool("hasmin") {
+			n := v.Int("min", -3, 3)
+			m := float64(n)
+			s.Min = &m
+			if s.ExclusiveMin {
+				wants = append(wants, want{ast.GreaterThanOp, int64(n)})
+			} else {
+				wants = append(wants, want{ast.GreaterThanEqualOp, int64(n)})
+			}
+		}
+		if v.Bool("hasmax") {
+			n := v.Int("max", -3, 3)
+			m := float64(n)
+			s.Max = &m
+			if s.ExclusiveMax {
+				wants = append(wants, want{ast.LessThanOp, int64(n)})
+			} else {
+				wants = append(wants, want{ast.LessThanEqualOp, int64(n)})
+			}
+		}
+	} else {
+		s.Type = opTypes("string")
+		n := v.Int("minlength", 0, 3)
+		s.MinLength = uint64(n)
+		if n > 0 {
+			wants = append(wants, want{ast.MinLengthOp, int64(n)})
+		}
+		if v.Bool("hasmaxlength") {
+			x := v.Int("maxlength", 0, 5)
+			ux := uint64(x)
+			s.MaxLength = &ux
+			wants = append(wants, want{ast.MaxLengthOp, int64(x)})
+		}
+	}
+	obj := &openapi3.Schema{Type: opTypes("object"), Properties: openapi3.Schemas{"field": &openapi3.SchemaRef{Value: s}}, Required: []string{"field"}}
+	parsed, err := opParse(openapi3.Schemas{"Thing": &openapi3.SchemaRef{Value: obj}})
+	v.Assert(err == nil, "C08: the OpenAPI parser rejects a property with numeric or length bounds")
+	if err != nil {
+		return
+	}
+	thing, found := parsed.LocateObject("Thing")
+	v.Assert(found && thing.Type.IsStruct() && len(thing.Type.Struct.Fields) == 1 && thing.Type.Struct.Fields[0].Type.IsScalar(), "C08: the constrained property is not a scalar field of the parsed object")
+	if !found || !thing.Type.IsStruct() || len(thing.Type.Struct.Fields) != 1 || !thing.Type.Struct.Fields[0].Type.IsScalar() {
+		return
+	}
+	got := thing.Type.Struct.Fields[0].Type.Scalar.Constraints
+	v.Assert(len(got) == len(wants), "C08: the constraints of the IR are not exactly the bounds the OpenAPI document states")
+	for _, w := range wants {
+		n := 0
+		for _, c := range got {
+			if c.Op != w.op || len(c.Args) != 1 {
+				continue
+			}
+			switch a := c.Args[0].(type) {
+			case int64:
+				if a == w.arg {
+					n++
+				}
+			case uint64:
+				if a == uint64(w.arg) {
+					n++
+				}
+			case float64:
+				if a == float64(w.arg) {
+					n++
+				}
+			}
+		}
+		v.Assert(n == 1, "C08: a bound of the OpenAPI document is missing from the IR, or has another operator or value")
+	}
+}
